@@ -582,13 +582,28 @@ fn shrink_in_child(p: &dyn Prop, v: &Violation, seed: u64) -> Violation {
 fn crash_probe(id: &str, tier: Tier, seed: u64, idx: u64) -> Option<i32> {
     use std::os::unix::process::ExitStatusExt;
     let exe = std::env::current_exe().unwrap();
-    let st = Command::new(exe)
+    let mut child = Command::new(exe)
         .args(["crashprobe", id, tier.name(), &seed.to_string(), &idx.to_string()])
         .stdout(Stdio::null())
         .stderr(Stdio::null())
-        .status()
+        .spawn()
         .ok()?;
-    st.signal()
+    let t0 = Instant::now();
+    loop {
+        match child.try_wait() {
+            Ok(Some(st)) => return st.signal(),
+            Ok(None) => {
+                // memory unsafety may as well hang: that is "did not reproduce as a crash"
+                if t0.elapsed() > Duration::from_secs(60) {
+                    let _ = child.kill();
+                    let _ = child.wait();
+                    return None;
+                }
+                std::thread::sleep(Duration::from_millis(10));
+            }
+            Err(_) => return None,
+        }
+    }
 }
 
 fn write_replay(v: &Violation, minimised: bool, original_ops: usize) -> PathBuf {
